@@ -48,6 +48,9 @@ class ModelZ3:
         if kind == "real":
             v = m.eval(t, model_completion=True)
             return format(float_bits(_real_to_float(v)), "x")
+        if kind == "fbits":
+            v = m.eval(t, model_completion=True)
+            return format(v.as_long(), "x")
         if kind == "int":
             v = m.eval(t, model_completion=True)
             if z3.is_bv_value(v):
@@ -85,6 +88,8 @@ class ModelExt:
         s = self.table[_key(t)]
         if kind == "float":
             return format(_parse_fp(s), "x")
+        if kind == "fbits":
+            return format(_bv(s)[0], "x")
         if kind == "int":
             return _parse_int(s)
         if kind == "bool":
@@ -207,6 +212,14 @@ def check(formulas, timeout_s, portfolio, P, want_z3_model=False):
         if r == z3.unsat:
             return "unsat", None, info
         if r == z3.sat:
+            prefs = getattr(P.ctx, "preferences", [])
+            if prefs:
+                # prefer a model in which the shim's demonic choices take their usual concrete value (stable tie order)
+                s.push()
+                s.add(*prefs)
+                if s.check() != z3.sat:
+                    s.pop()
+                    s.check()
             zm = s.model()
             m = ModelZ3(zm)
             vals, tables = _values_from_model(m, P)
@@ -215,6 +228,40 @@ def check(formulas, timeout_s, portfolio, P, want_z3_model=False):
         if not portfolio:
             return "unknown", None, info
     return _portfolio(formulas, timeout_s, P, t0)
+
+
+def check_incremental(solver, neg, timeout_s, P, restore_timeout_ms):
+    t0 = time.time()
+    solver.push()
+    try:
+        solver.set("timeout", int(timeout_s * 1000))
+        solver.add(neg)
+        r = solver.check()
+        info = {"solver": "z3-5.1-incremental", "time": time.time() - t0}
+        if r == z3.unsat:
+            return "unsat", None, info
+        if r == z3.sat:
+            prefs = getattr(P.ctx, "preferences", [])
+            if prefs:
+                solver.push()
+                solver.add(*prefs)
+                ok = solver.check() == z3.sat
+                if ok:
+                    zm = solver.model()
+                solver.pop()
+                if not ok:
+                    solver.check()
+                    zm = solver.model()
+            else:
+                zm = solver.model()
+            m = ModelZ3(zm)
+            vals, tables = _values_from_model(m, P)
+            P._last_model = m
+            return "sat", (vals, tables), info
+        return "unknown", None, info
+    finally:
+        solver.pop()
+        solver.set("timeout", restore_timeout_ms)
 
 
 def failing_obligations(pending, model, P):
@@ -352,6 +399,8 @@ def _read_values(txt, uterms):
 def eval_value(zm, v, profile):
     m = ModelZ3(zm)
     if isinstance(v, core.SFloat):
+        if profile == "fp" and v._b is not None:
+            return ("f", m.value("fbits", v._b))
         return ("f", m.value("float" if profile == "fp" else "real", v.e))
     if isinstance(v, core.SInt):
         return ("i", m.value("int", v.e))
